@@ -48,6 +48,22 @@ func (g *Gen) conditional() Step {
 		default:
 			o = Step{Op: "check." + g.pick([]string{"cas", "delete-cas"}), Node: g.pick(g.U.Nodes), Checks: []Check{{ID: g.pick(g.U.Checks), Status: g.status()}}, Idx: idx}
 		}
+		if simkit.Chance(r, 30) {
+			// the same entity rewritten by an earlier operation of the transaction: the condition is
+			// evaluated on what that operation left behind (its index is the transaction's own)
+			w := o
+			w.Idx = ""
+			switch {
+			case strings.HasPrefix(o.Op, "node."):
+				w.Op, w.Addr = "node.set", fmt.Sprintf("10.7.%d.%d", r.IntN(250), 1+r.IntN(250))
+			case strings.HasPrefix(o.Op, "service."):
+				w.Op, w.Port = "service.set", 10000+r.IntN(50000)
+			default:
+				w.Op = "check.set"
+				w.Checks = []Check{{ID: o.Checks[0].ID, Status: g.status(), Output: fmt.Sprint("out", r.Uint32())}}
+			}
+			return Step{Op: "txn", Ops: []Step{w, o}}
+		}
 		return Step{Op: "txn", Ops: []Step{o}}
 	case 3:
 		text := mustJSON(M{"Kind": "service-defaults", "Name": g.pick(g.U.Services), "Protocol": g.pick([]string{"tcp", "http"})})
@@ -141,6 +157,31 @@ func (c *Cluster) verdict(s Step) casVerdict {
 		}
 		return casVerdict{conditional: true, matched: sup == cur, what: fmt.Sprintf("key %q cur=%d supplied=%d", s.Key, cur, sup)}
 	case "txn":
+		if len(s.Ops) == 2 && strings.HasSuffix(s.Ops[0].Op, ".set") && strings.HasSuffix(s.Ops[1].Op, "cas") &&
+			strings.SplitN(s.Ops[0].Op, ".", 2)[0] == strings.SplitN(s.Ops[1].Op, ".", 2)[0] {
+			// the first operation gives the entity the transaction's own index (or fails the transaction):
+			// only that index matches
+			o := s.Ops[1]
+			var cur uint64
+			switch {
+			case strings.HasPrefix(o.Op, "node."):
+				cur = c.NodeIndex(o.Node, o.Peer)
+			case strings.HasPrefix(o.Op, "service."):
+				id := o.SvcID
+				if id == "" {
+					id = o.Svc
+				}
+				cur = c.ServiceIndex(o.Node, id, o.Peer)
+			case len(o.Checks) > 0:
+				cur = c.CheckIndex(o.Node, o.Checks[0].ID, o.Peer)
+			}
+			sup, own := resolveIdx(o.Idx, cur), c.next+uint64(s.Gap)
+			what := fmt.Sprintf("%s after %s in one transaction: supplied=%d, the transaction's own index is %d", o.Short(), s.Ops[0].Short(), sup, own)
+			if sup == own {
+				return casVerdict{conditional: true, matched: true, invalid: true, what: what}
+			}
+			return casVerdict{conditional: true, matched: false, what: what}
+		}
 		if len(s.Ops) != 1 {
 			return casVerdict{}
 		}
